@@ -339,6 +339,8 @@ func (e *Env) eval(x Expr) Val {
 			return boolVal("true")
 		}
 		return boolVal("false")
+	case *EFloat:
+		return Val{T: types.Typ[types.Float64], K: KFloat, S: fpLit(n.V)}
 	case *EStr:
 		return Val{T: types.Typ[types.String], K: KStr, S: vc.strLit(n.V)}
 	case *ENil:
@@ -413,6 +415,20 @@ func (e *Env) eval(x Expr) Val {
 	case *EBin:
 		return e.evalBin(n)
 	case *EQuant:
+		if kc, ok := n.Lo.(*ECall); ok && kc.Fn == "keys" && n.Hi == nil {
+			var parts []Term
+			for _, kv := range e.knownKeys(kc) {
+				b := e.with(n.Var, kv.v).eval(n.Body)
+				if b.K != KBool {
+					sfail("quantifier body is not boolean")
+				}
+				parts = append(parts, b.S)
+			}
+			if n.Forall {
+				return boolVal(and(parts...))
+			}
+			return boolVal(or(parts...))
+		}
 		vc.counter++
 		bv := fmt.Sprintf("q!%s!%d", sanitize(n.Var), vc.counter)
 		inner := e.with(n.Var, mathInt(bv))
@@ -449,6 +465,8 @@ func valsEqual(vc *VC, a, b Val) Term {
 		a, b = b, a
 	}
 	switch a.K {
+	case KFloat:
+		return app("fp.eq", a.S, b.S)
 	case KSlice:
 		if b.K == KPtr { // nil
 			return eq(a.Sl[0], "0")
@@ -529,6 +547,15 @@ func (e *Env) evalBin(n *EBin) Val {
 	}
 	a := e.eval(n.X)
 	b := e.eval(n.Y)
+	// integer literals compared with floats are read as floats
+	if a.K == KFloat && b.K == KInt && b.C != nil {
+		f, _ := new(big.Float).SetInt(b.C).Float64()
+		b = Val{T: a.T, K: KFloat, S: fpLit(f)}
+	}
+	if b.K == KFloat && a.K == KInt && a.C != nil {
+		f, _ := new(big.Float).SetInt(a.C).Float64()
+		a = Val{T: b.T, K: KFloat, S: fpLit(f)}
+	}
 	switch n.Op {
 	case "==":
 		return boolVal(valsEqual(vc, e.force(a), e.force(b)))
@@ -711,11 +738,11 @@ func (e *Env) evalCall(n *ECall) Val {
 		return boolVal(eq(x.If[0], vc.typeTag(t)))
 	case "implements":
 		x := arg(0)
-		id, ok := n.Args[1].(*EIdent)
+		tl, ok := n.Args[1].(*ETypeLit)
 		if !ok || x.K != KIface {
 			sfail("implements(x, I)")
 		}
-		t := e.lookupType(id.Name)
+		t := e.lookupType(tl.Type)
 		return boolVal(vc.implementsTerm(x.If[0], t))
 	case "tag":
 		x := arg(0)
@@ -748,10 +775,39 @@ func (e *Env) evalCall(n *ECall) Val {
 			sfail("disjoint needs slices")
 		}
 		return boolVal(not(eq(a.Sl[0], b.Sl[0])))
+	case "xor8", "and8", "or8", "xor16", "and16", "or16":
+		// exact bitwise operations on values known to fit in 8 / 16 bits
+		a, b := arg(0), arg(1)
+		bits := uint(8)
+		if strings.HasSuffix(n.Fn, "16") {
+			bits = 16
+		}
+		op := map[byte]string{'x': "^", 'a': "&", 'o': "|"}[n.Fn[0]]
+		return mathInt(bitwiseGeneral(op, a.S, b.S, bits))
+	case "has":
+		m := arg(0)
+		k := arg(1)
+		if m.K != KMap {
+			sfail("has(m, k) needs a map")
+		}
+		if _, _, _, ok := vc.mapComps(m.T); !ok {
+			sfail("map type %s unsupported", m.T)
+		}
+		return boolVal(and(not(eq(m.S, "0")), vc.mapHas(e.st, m, k)))
 	case "callres":
 		// callres(name, n): result of the n-th call named `name` in this function
+		if len(n.Args) != 2 {
+			sfail("callres(name, n)")
+		}
 		id, ok := n.Args[0].(*EIdent)
-		if !ok || len(n.Args) != 2 {
+		if !ok {
+			if sl, isSel := n.Args[0].(*ESel); isSel {
+				if pk, isId := sl.X.(*EIdent); isId {
+					id, ok = &EIdent{pk.Name + "." + sl.Name}, true
+				}
+			}
+		}
+		if !ok {
 			sfail("callres(name, n)")
 		}
 		k, ok := n.Args[1].(*EInt)
